@@ -277,3 +277,15 @@ package keepclient
 //@   loop 1: invariant list == old(list) && kc == old(kc) && writableLocalRoots != nil && localRoots != nil && listed != nil && gatewayRoots != nil && writableLocalRoots != localRoots && writableLocalRoots != gatewayRoots && localRoots != gatewayRoots
 //@   loop 1: invariant forall u string :: has(writableLocalRoots, u) ==> listedWritable(list, $i, u) && has(localRoots, u)
 //@   loop 1: invariant kc.replicasPerService == 0 || kc.replicasPerService == 1
+
+// PutR: the whole stream is read first (a read error aborts before anything is
+// uploaded) and exactly those bytes go to PutB.
+//@ func KeepClient.PutR property C11
+//@   requires kc.Retries >= 0
+//@   ghost rerr error = nil
+//@   ghost buf0 []byte = nil
+//@   calls ioutil.ReadAll#1: requires $0 == r
+//@   calls ioutil.ReadAll#1: set rerr = $r1
+//@   calls ioutil.ReadAll#1: set buf0 = $r0
+//@   calls KeepClient.PutB#1: requires rerr == nil && $0 == buf0
+//@   ensures rerr != nil ==> err == rerr && replicas == 0
